@@ -52,6 +52,7 @@ def ev? : Sexp → Option Ev
   | .list [.atom "withlock", i] => do pure (.withLock (← asNat? i))
   | .list [.atom "withunlock", i] => do pure (.withUnlock (← asNat? i))
   | .list [.atom "exit"] => some .exitCtx
+  | .list [.atom "unlockshallow", i] => do pure (.unlockShallow (← asNat? i))
   | _ => none
 
 def outAtom : Out → String
